@@ -592,7 +592,7 @@ def main():
                    "translator translators/internal.py (casbin/internal_enforcer.py -> coq/gen/InternalGen.v, syntactic, fail-closed, regenerated "
                    "on this run) + interpreter coq/theories/IntLang.v; InternalTie.v proves the regenerated internal API = Mgmt.v's i_* functions "
                    "(results, rule lists, adapter calls, notifications) for every configuration; _update_filtered_policies not translated"]
-    chk.build(translators=["internal"], oracle_name="Mgmt")
+    chk.build(translators=["internal", "polwrap"], oracle_name="Mgmt")
     if chk.replay_file:
         import json
         c = (json.load(open(chk.replay_file)).get("case") or {})
